@@ -723,6 +723,31 @@ def m_res_is(interp, path, args, ret_ty, callee):
     return BoolV(e.discr == (0 if callee.endswith("is_ok") else 1))
 
 
+@model(r"^Option::<.*>::(as_ref|as_mut)$", "Option<&T> pointing into the option's payload")
+def m_opt_as_ref(interp, path, args, ret_ty, callee):
+    from .interp import _ConstRef
+    r = args[0]
+    e = deref(interp, path, r)
+    if e.kind != "enum":
+        raise Refuse("as_ref on %r" % (e,))
+    payload = e.variants.get(1, [UndefV()])
+    pty = "&" + (payload[0].ty if payload and payload[0].kind != "undef" else "T")
+    if hasattr(r, "target") or r.kind != "ref":
+        inner = _ConstRef(pty, payload[0]) if payload and payload[0].kind != "undef" else UndefV()
+    else:
+        inner = RefV(pty, r.fid, r.local, tuple(r.projs) + (("downcast", "Some"), ("field", 0)))
+    return EnumV(ret_ty, e.discr, {0: [], 1: [inner]})
+
+
+@model(r"^Option::<.*>::is_some_and::<.*>$", "Some(x) -> f(x); None -> false")
+def m_opt_is_some_and(interp, path, args, ret_ty, callee):
+    e, f = args[0], args[1]
+
+    def on_some(p):
+        return interp.call_value(p, f, [e.variants[1][0]], "bool")
+    return fork_enum(interp, path, e, {1: on_some, 0: lambda p: [Outcome(p, "ret", BoolV(False))]})
+
+
 @model(r"^Option::<.*>::(expect|unwrap)$", "payload of Some; None panics")
 def m_opt_expect(interp, path, args, ret_ty, callee):
     e = args[0]
